@@ -38,8 +38,8 @@ package trustedproxy
 // entries are parsed as written: CIDR notation by ParseCIDR, single addresses by ParseIP
 //@ func New
 //@   props C09
-//@   assert at call net.ParseCIDR#1: callarg0 == ipAddr && contains(ipAddr, "/")
-//@   assert at call net.ParseIP#1: callarg0 == ipAddr && !contains(ipAddr, "/")
+//@   assert at call net.ParseCIDR#1@902cb37b.1: callarg0 == ipAddr && contains(ipAddr, "/")
+//@   assert at call net.ParseIP#1@0a91c71f.1: callarg0 == ipAddr && !contains(ipAddr, "/")
 
 // the middleware: untrusted peer => every listed header is deleted before the next handler runs;
 // trusted peer => the headers are passed on untouched
@@ -49,6 +49,6 @@ package trustedproxy
 //@   ensures tpc.ret0[old(tpc.n)] ==> hdel.n == old(hdel.n) && hset.n == old(hset.n) && hadd.n == old(hadd.n)
 //@   ensures !tpc.ret0[old(tpc.n)] ==> hdel.n == old(hdel.n) + len(untrustedHeader)
 //@   ensures !tpc.ret0[old(tpc.n)] ==> forall k int :: old(hdel.n) <= k && k < hdel.n ==> hdel.arg0[k] == old(req.Header) && hdel.arg1[k] == before(untrustedHeader[k - old(hdel.n)])
-//@   assert at call Handler_.ServeHTTP#1: tpc.ret0[tpc.n-1] || hdel.n == old(hdel.n) + len(untrustedHeader)
+//@   assert at call Handler_.ServeHTTP#1@d2507bcf.1: tpc.ret0[tpc.n-1] || hdel.n == old(hdel.n) + len(untrustedHeader)
 //@   loop 0 invariant idx + 1 <= len(untrustedHeader) && hdel.n == old(hdel.n) + idx + 1 && serve.n == old(serve.n) && tpc.n == old(tpc.n) + 1
 //@   loop 0 invariant forall k int :: old(hdel.n) <= k && k < hdel.n ==> hdel.arg0[k] == old(req.Header) && hdel.arg1[k] == before(untrustedHeader[k - old(hdel.n)])
